@@ -155,6 +155,40 @@ impl C11 {
         }
     }
 
+    /// The cursor column is a count of characters, however many: ',' and TAB still act on it beyond 32767.
+    fn long_column_case(&self, rng: &mut Rng, ctx: &mut Ctx) {
+        let n = *rng.pick(&[128usize, 129, 130, 131, 140]);
+        let extra = rng.usize(14);
+        let lines = [
+            format!("10 FOR I=1 TO {}:PRINT STRING$(255,\"*\");:NEXT:PRINT \"{}\";", n, "#".repeat(extra)),
+            "20 PRINT ,\"X\";".to_string(),
+            "30 PRINT TAB(5);\"Y\"".to_string(),
+        ];
+        let text = lines.join("\n");
+        mon::journal(&text);
+        let mut s = Session::new();
+        s.drain(8);
+        for l in &lines {
+            s.command(l, 16);
+        }
+        let mark = s.mark();
+        let st = s.command("RUN", 4000);
+        let got = transcript(s.events_since(mark), Norm::STD);
+        let col = n * 255 + extra;
+        let want = format!("{}{}{}XY\nREADY.\n<STOPPED>", "*".repeat(n * 255), "#".repeat(extra), " ".repeat(14 - col % 14));
+        ctx.eval(&text, true);
+        ctx.count("long_column_sessions");
+        if st != Stop::Stopped || got != want {
+            let tail = |t: &str| t.chars().rev().take(60).collect::<String>().chars().rev().collect::<String>();
+            ctx.violation(
+                "layout-differs",
+                "print:layout:column-beyond-32767",
+                &format!("{}\n after {} characters on the line the output ends {:?}, expected {:?}", text, col, tail(&got), tail(&want)),
+                &text,
+            );
+        }
+    }
+
     /// The column after an INPUT reply is 0 however the prompt came about: shown by the program, or shown again by
     /// CONT after a break at the prompt, also when the direct line that continued had left the cursor mid-line.
     fn input_break_case(&self, rng: &mut Rng, ctx: &mut Ctx) {
@@ -271,8 +305,22 @@ impl C11 {
                     7 if rng.chance(1, 3) => {
                         // a line feed in the middle of one string value
                         let (a, b) = (*rng.pick(&["TOTAL", "", "é→", "xy"]), *rng.pick(&["SUB", "", "ß", "0123456789"]));
-                        text.push_str(&format!("\"{}\"+CHR$(10)+\"{}\"", a, b));
-                        emit(&format!("{}\n{}", a, b), &mut col, &mut out);
+                        match rng.usize(3) {
+                            0 => {
+                                // several line feeds in one value
+                                text.push_str(&format!("\"{}\"+CHR$(10)+\"{}\"+CHR$(10)+\"{}\"", a, b, a));
+                                emit(&format!("{}\n{}\n{}", a, b, a), &mut col, &mut out);
+                            }
+                            1 => {
+                                let k = rng.range(2, 4) as usize;
+                                text.push_str(&format!("STRING$({},10)+\"{}\"", k, b));
+                                emit(&format!("{}{}", "\n".repeat(k), b), &mut col, &mut out);
+                            }
+                            _ => {
+                                text.push_str(&format!("\"{}\"+CHR$(10)+\"{}\"", a, b));
+                                emit(&format!("{}\n{}", a, b), &mut col, &mut out);
+                            }
+                        }
                         kinds.insert("newline-inside-string");
                     }
                     7 if rng.chance(1, 2) => {
@@ -450,7 +498,9 @@ impl Prop for C11 {
     }
 
     fn run_case(&mut self, idx: u64, rng: &mut Rng, ctx: &mut Ctx) {
-        if idx % 16 == 7 {
+        if idx % 512 == 9 {
+            self.long_column_case(rng, ctx)
+        } else if idx % 16 == 7 {
             self.input_break_case(rng, ctx)
         } else if idx % 2 == 0 {
             self.number_case(rng, ctx)
